@@ -1,6 +1,124 @@
-(* Properties/C17.v — placeholder while the proofs are being installed *)
-From Coq Require Import List ZArith.
-From DV Require Import Model.Dgc.
+(* Properties/C17.v — DGC-SPNs are smooth, decomposable and normalised for every configuration.
+   Model: Model/Dgc.v (constructor loop of deeprob/spn/models/dgcspn.py, layer arithmetic and the indexed
+   product / mixtures of deeprob/spn/layers/dgcspn.py).  `admissible g` = side >= 1, 0 <= n_pooling <=
+   ceil(log2 side), 2^n_pooling | side, positive base/sum channel counts; every theorem quantifies over ALL
+   such configurations (any side, any depthwise flags, any channel counts, any weights). *)
+From Coq Require Import List ZArith Bool Ring.
+From DV Require Import Model.Dgc Proofs.DgcFacts Proofs.DgcGeom Proofs.DgcEval Proofs.DgcMain.
+Import ListNotations.
+Open Scope Z_scope.
+
+(* what DgcSpn.__init__ accepts, with the divisibility premise, is admissible *)
+Theorem C17_accepted_admissible : forall g,
+    accepted g = true -> 1 <= cf_side g -> (2 ^ cf_pool g | cf_side g) -> admissible g.
+Proof. exact accepted_admissible. Qed.
+
+(* sizes after k iterations of the layer loop: positive, and (side - E + 1) * P = D with P = 2^min(k,n)
+   the pooled block size and E = 2^max(k-n,0) the dilation reached; the last layer has 2^(depth-n)
+   positions per axis *)
+Theorem C17_sizes : forall g, admissible g ->
+    (forall k : nat, Z.of_nat k <= depth_of (cf_side g) ->
+       0 < s_c (state_at g k) /\ 0 < s_side (state_at g k) /\
+       (s_side (state_at g k) - EE g (Z.of_nat k) + 1) * PP g (Z.of_nat k) = cf_side g) /\
+    s_side (build g) = 2 ^ (depth_of (cf_side g) - cf_pool g) /\ 0 < s_c (build g).
+Proof. exact adm_sizes. Qed.
+
+(* closed-form scope at every level: position (h,w) after k iterations covers exactly the pixels whose
+   block indices (x / P, y / P) lie in [h-E+1, h] x [w-E+1, w] *)
+Theorem C17_scope_interval : forall g, admissible g ->
+    forall (k : nat) h w x y, Z.of_nat k <= depth_of (cf_side g) ->
+      0 <= h < s_side (state_at g k) -> 0 <= w < s_side (state_at g k) ->
+      0 <= x < cf_side g -> 0 <= y < cf_side g ->
+      use2 (s_ls (state_at g k)) h w x y =
+      ind (PP g (Z.of_nat k)) (EE g (Z.of_nat k)) h x * ind (PP g (Z.of_nat k)) (EE g (Z.of_nat k)) w y.
+Proof. exact adm_scope_interval. Qed.
+
+(* every induced sub-circuit (any choice `ch` of one child per sum node, any root child (c,h,w)) uses
+   every pixel exactly once *)
+Theorem C17_each_pixel_once : forall g, admissible g ->
+    forall (ch : nat -> Z -> Z -> Z -> Z) c h w x y,
+      0 <= h < s_side (build g) -> 0 <= w < s_side (build g) ->
+      0 <= x < cf_side g -> 0 <= y < cf_side g ->
+      count_px x y (leaves ch (s_ls (build g)) c h w) = 1.
+Proof. exact adm_each_pixel_once. Qed.
+
+(* smoothness: for EVERY layer list the pixels below a node do not depend on its channel nor on the
+   choices made at sum nodes, so all children of a sum node (the channels of its position) have one scope;
+   with C17_each_pixel_once every root child has the full scope *)
+Theorem C17_smooth : forall ch ch' ls c c' h w x y,
+    count_px x y (leaves ch ls c h w) = count_px x y (leaves ch' ls c' h w).
+Proof. exact scope_channel_free. Qed.
+
+(* decomposability: at every product layer (iteration k) and every output position the (up to) four
+   factors have pairwise disjoint scopes *)
+Theorem C17_decomposable : forall g, admissible g ->
+    forall (k : nat) h w, Z.of_nat k <= depth_of (cf_side g) ->
+      0 <= h < l_outs (prod_at g k) -> 0 <= w < l_outs (prod_at g k) ->
+      decomposable_at (prod_at g k) (s_ls (state_at g k)) h w
+                      (fun x y => 0 <= x < cf_side g /\ 0 <= y < cf_side g).
+Proof. exact adm_decomposable. Qed.
+
+Section C17_eval.
+  Variable T : Type.
+  Variables (t0 t1 : T) (tadd tmul : T -> T -> T).
+  Hypothesis SRth : semi_ring_theory t0 t1 tadd tmul (@eq T).
+
+  (* a fully missing input has probability one (log-probability zero) at every class output — for every
+     architecture (this needs normalised weights only) *)
+  Theorem C17_all_missing_zero : forall g wt rw lf k,
+      (forall c h w, lf c h w = t1) -> wnorm T t0 t1 tadd wt (s_ls (build g)) -> root_norm g T t0 t1 tadd rw k ->
+      eval_root T t0 t1 tadd tmul wt lf rw (s_ls (build g)) (s_c (build g)) (s_side (build g)) k = t1.
+  Proof. exact (sec_all_missing T t0 t1 tadd tmul SRth). Qed.
+
+  (* each class output marginalises every pixel exactly: the sum over the values of pixel (px,py) of the
+     output equals the output with that pixel missing (leaf families with a finite value list `dom`).
+     Iterating over all pixels and ending with C17_all_missing_zero gives total mass one. *)
+  Theorem C17_class_marginal : forall g, admissible g ->
+      forall wt rw (V : Type) (dom : list V) px py lfv lfm k,
+        0 <= px < cf_side g -> 0 <= py < cf_side g ->
+        (forall v c h w, (h =? px) && (w =? py) = false -> lfv v c h w = lfm c h w) ->
+        (forall c, zsum T t0 tadd (map (fun v => lfv v c px py) dom) = lfm c px py) ->
+        zsum T t0 tadd (map (fun v : V => eval_root T t0 t1 tadd tmul wt (lfv v) rw (s_ls (build g))
+                                                   (s_c (build g)) (s_side (build g)) k) dom) =
+        eval_root T t0 t1 tadd tmul wt lfm rw (s_ls (build g)) (s_c (build g)) (s_side (build g)) k.
+  Proof. exact (sec_class_marginal T t0 t1 tadd tmul SRth). Qed.
+
+  (* C17_normalised_partial: the statement "the sum over ALL joint pixel values is one" is not stated as one
+     formula; it is the iteration of C17_class_marginal over the D*D pixels followed by
+     C17_all_missing_zero.  Missing: the fold over the pixel list, and Gaussian leaves (integrals). *)
+  Theorem C17_normalised_partial : forall g, admissible g ->
+      forall wt rw (V : Type) (dom : list V) px py lfv lfm k,
+        0 <= px < cf_side g -> 0 <= py < cf_side g ->
+        (forall v c h w, (h =? px) && (w =? py) = false -> lfv v c h w = lfm c h w) ->
+        (forall c, zsum T t0 tadd (map (fun v => lfv v c px py) dom) = lfm c px py) ->
+        (forall c h w, lfm c h w = t1) ->
+        wnorm T t0 t1 tadd wt (s_ls (build g)) -> root_norm g T t0 t1 tadd rw k ->
+        zsum T t0 tadd (map (fun v : V => eval_root T t0 t1 tadd tmul wt (lfv v) rw (s_ls (build g))
+                                                   (s_c (build g)) (s_side (build g)) k) dom) = t1.
+  Proof. exact (sec_normalised_partial T t0 t1 tadd tmul SRth). Qed.
+End C17_eval.
+
+(* mpe returns torch.where(isnan(x), estimate, x): an observed cell is returned unchanged (definitional on
+   the model; the implementation is tied bitwise by the harness) *)
 Theorem C17_mpe_keeps_observed : forall (A : Type) (v est : A), mpe_cell (Some v) est = v.
 Proof. reflexivity. Qed.
+
+(* why the property carries the divisibility premise: side 6 with two pooling layers is accepted by the
+   constructor, and pixel (5,5) is in the scope of no root child *)
+Theorem C17_indivisible_refuted :
+  accepted g_indiv = true /\
+  forall h w, In h (zrange (s_side (build g_indiv))) -> In w (zrange (s_side (build g_indiv))) ->
+              use2 (s_ls (build g_indiv)) h w 5 5 = 0.
+Proof. exact indivisible_refuted. Qed.
+
+Print Assumptions C17_accepted_admissible.
+Print Assumptions C17_sizes.
+Print Assumptions C17_scope_interval.
+Print Assumptions C17_each_pixel_once.
+Print Assumptions C17_smooth.
+Print Assumptions C17_decomposable.
+Print Assumptions C17_all_missing_zero.
+Print Assumptions C17_class_marginal.
+Print Assumptions C17_normalised_partial.
 Print Assumptions C17_mpe_keeps_observed.
+Print Assumptions C17_indivisible_refuted.
